@@ -1,4 +1,4 @@
-// ---- shared by all sliced (frame) units: see tools/skeleton.py ----
+// ---- prelude of the frame slices (tools/skeleton.py PRELUDE; keep in sync) ----
 /// nondeterministic branch condition (every condition of the sliced function, including the stop flag and the clock)
 #[verifier::external_body]
 pub fn nondet() -> (r: bool) { unimplemented!() }
@@ -9,6 +9,12 @@ pub fn nondet() -> (r: bool) { unimplemented!() }
 pub fn havoc_move(board: &Bitboard) -> (m: Move)
     ensures move_wf(pos_of(*board), m), no_king_capture(pos_of(*board), m), clocks_ok(pos_of(*board))
 { unimplemented!() }
+
+/// OVER-APPROXIMATION used only when a sliced function (or a helper it calls) assigns a new value to the board, which the
+/// slicer cannot follow: afterwards the board is arbitrary.  A unit that contains a call of this function is DEGRADED:
+/// a failing obligation is then reported as a violation only together with a failing input reproduced on the real code.
+#[verifier::external_body]
+pub fn havoc_board(board: &mut Bitboard) { unimplemented!() }
 
 /// Bitboard::is_any_move_legal restores the board (frame part of its contract; body verified verbatim in unit uci_moves)
 #[verifier::external_body]
